@@ -21,7 +21,7 @@ Reading guide.
 * Every sampler of the library is `deterministic transform ∘ draws from the global np.random`; the
   model keeps only the draws (`Call.draws`) and whether the body raises after them (`Call.raises`):
   the transform is a function of the fitted parameters, which the RNG protocol never touches.
-* `RandomState` objects live in a heap (`heap : Ref → G`, `next` = allocation pointer) because
+* `RandomState` objects live in a heap (`heap : Nat → G`, `next` = allocation pointer) because
   `validate_random_state` keeps a caller-supplied object **by reference** while the context manager
   stores a **fresh** object carrying the advanced state; `World.rs m` is the model attribute
   `m.random_state` (`none` = `None`).
@@ -31,10 +31,8 @@ Reading guide.
 -/
 namespace CopVerif.Model.Rng
 
-/-- model identifiers (Python objects with a `random_state` attribute). -/
-abbrev MId := Nat
-/-- references to `np.random.RandomState` objects. -/
-abbrev Ref := Nat
+/-! Model identifiers `m` (Python objects with a `random_state` attribute) and references `r` to
+`np.random.RandomState` objects are plain `Nat`s. -/
 
 /-- abstract generator algebra. -/
 structure GenAlg (G Draw Out : Type) where
@@ -66,12 +64,12 @@ def Result.append {Out : Type} : Result Out → Result Out → Result Out
     attribute of every model. -/
 structure World (G : Type) where
   global : G
-  heap : Ref → G
+  heap : Nat → G
   next : Nat
-  rs : MId → Option Ref
+  rs : Nat → Option Nat
 
 /-- `m.random_state.get_state()` if `m.random_state is not None`. -/
-def World.view {G : Type} (w : World G) (m : MId) : Option G := (w.rs m).map w.heap
+def World.view {G : Type} (w : World G) (m : Nat) : Option G := (w.rs m).map w.heap
 
 /-- every reference stored in a model points to an allocated object. -/
 def WF {G : Type} (w : World G) : Prop := ∀ m r, w.rs m = some r → r < w.next
@@ -81,7 +79,7 @@ def WF {G : Type} (w : World G) : Prop := ∀ m r, w.rs m = some r → r < w.nex
 inductive Seed where
   | none
   | int (n : Nat)
-  | obj (r : Ref)
+  | obj (r : Nat)
   deriving DecidableEq, Repr
 
 section
@@ -116,7 +114,7 @@ def withModelState {R : Type} (st : G) (setter : G → World G → World G)
 
 /-- `model.set_random_state(current_random_state)` as called by the context manager:
     `current_random_state` is a *new* object (allocated here) holding state `g`. -/
-def storeFresh (m : MId) (g : G) (w : World G) : World G :=
+def storeFresh (m : Nat) (g : G) (w : World G) : World G :=
   ⟨w.global, upd w.heap w.next g, w.next + 1, upd w.rs m (some w.next)⟩
 
 /-- `utils.random_state` around `body`, for an object whose `random_state` currently reads `st`. -/
@@ -127,7 +125,7 @@ def decorateWith (st : Option G) (setter : G → World G → World G)
   | some g => withModelState g setter body w
 
 /-- the decorator applied to a method of model `m`. -/
-def decorate (m : MId) (body : World G → World G × Result Out) (w : World G) :
+def decorate (m : Nat) (body : World G → World G × Result Out) (w : World G) :
     World G × Result Out :=
   decorateWith (w.view m) (storeFresh m) body w
 
@@ -142,25 +140,25 @@ inductive Kind where
 
 /-- per-model configuration; `decorated` comes from the generated table. -/
 structure Config where
-  kind : MId → Kind
-  decorated : MId → Bool
+  kind : Nat → Kind
+  decorated : Nat → Bool
 
 /-- the function under the decorator (or the whole method when there is no decorator). -/
-def undecoratedSample (cfg : Config) (m : MId) (c : Call Draw) (w : World G) :
+def undecoratedSample (cfg : Config) (m : Nat) (c : Call Draw) (w : World G) :
     World G × Result Out :=
   match cfg.kind m with
   | .direct => drawGlobal A c w
   | .delegating => decorateWith none (fun _ w => w) (drawGlobal A c) w
 
 /-- `m.sample(...)`. -/
-def sample (cfg : Config) (m : MId) (c : Call Draw) (w : World G) : World G × Result Out :=
+def sample (cfg : Config) (m : Nat) (c : Call Draw) (w : World G) : World G × Result Out :=
   if cfg.decorated m then decorate m (undecoratedSample A cfg m c) w
   else undecoratedSample A cfg m c w
 
 /-- `m.set_random_state(seed)` / the constructor's `self.random_state = validate_random_state(seed)`.
     An `int` makes a new `RandomState(seed)`; a `RandomState` object is kept by reference
     (a reference to an object that does not exist cannot be written in Python: no-op). -/
-def setRandomState (m : MId) (s : Seed) (w : World G) : World G :=
+def setRandomState (m : Nat) (s : Seed) (w : World G) : World G :=
   match s with
   | .none => ⟨w.global, w.heap, w.next, upd w.rs m none⟩
   | .int n => storeFresh m (A.fromSeed n) w
@@ -193,13 +191,13 @@ def datasetBimodal (seed : Nat) (dsB dsM : List Draw) (w : World G) : World G ×
 /-- one observable operation of a client program. -/
 inductive Op (Draw : Type) where
   /-- `m.sample(...)` whose body performs `c`. -/
-  | sample (m : MId) (c : Call Draw)
+  | sample (m : Nat) (c : Call Draw)
   /-- `m.set_random_state(s)` (also: construction with `random_state=s`). -/
-  | setState (m : MId) (s : Seed)
+  | setState (m : Nat) (s : Seed)
   /-- the caller creates `np.random.RandomState(n)` (its reference is the current `next`). -/
   | callerNew (n : Nat)
   /-- the caller draws from an object it holds (`rs.uniform(...)`, or `m.random_state.uniform(...)`). -/
-  | callerDraw (r : Ref) (d : Draw)
+  | callerDraw (r : Nat) (d : Draw)
   /-- `np.random.seed(n)`. -/
   | seedGlobal (n : Nat)
   | dataset (seed : Nat) (ds : List Draw)
@@ -229,23 +227,26 @@ def runLog (cfg : Config) : World G → List (Op Draw) → List (World G × Opti
   | _, [] => []
   | w, op :: h => let r := step A cfg w op; r :: runLog cfg r.1 h
 
-/-- what the successive `m.sample` calls of a history returned. -/
-def outputs (cfg : Config) (m : MId) : World G → List (Op Draw) → List (Result Out)
-  | _, [] => []
-  | w, op :: h =>
-    (match op with
-      | .sample m' c => if m' = m then [(sample A cfg m' c w).2] else []
-      | _ => []) ++ outputs cfg m (stepW A cfg w op) h
+/-- what one op returned to the caller of `m.sample`, if it is such a call. -/
+def outputOp (cfg : Config) (m : Nat) (w : World G) : Op Draw → List (Result Out)
+  | .sample m' c => if m' = m then [(sample A cfg m' c w).2] else []
+  | _ => []
 
-/-- the same, with the calls made while `m.random_state is None` masked out (`none`): those are
-    driven by the global stream (`unseeded_uses_global`), not by the model's own. -/
-def maskedOutputs (cfg : Config) (m : MId) : World G → List (Op Draw) → List (Option (Result Out))
+/-- what the successive `m.sample` calls of a history returned. -/
+def outputs (cfg : Config) (m : Nat) : World G → List (Op Draw) → List (Result Out)
   | _, [] => []
-  | w, op :: h =>
-    (match op with
-      | .sample m' c =>
-        if m' = m then [if (w.rs m).isSome then some (sample A cfg m' c w).2 else none] else []
-      | _ => []) ++ maskedOutputs cfg m (stepW A cfg w op) h
+  | w, op :: h => outputOp A cfg m w op ++ outputs cfg m (stepW A cfg w op) h
+
+/-- the same, with a call made while `m.random_state is None` masked out (`none`): such a call is
+    driven by the global stream (`unseeded_uses_global`), not by the model's own. -/
+def maskedOp (cfg : Config) (m : Nat) (w : World G) : Op Draw → List (Option (Result Out))
+  | .sample m' c =>
+    if m' = m then [if (w.rs m).isSome then some (sample A cfg m' c w).2 else none] else []
+  | _ => []
+
+def maskedOutputs (cfg : Config) (m : Nat) : World G → List (Op Draw) → List (Option (Result Out))
+  | _, [] => []
+  | w, op :: h => maskedOp A cfg m w op ++ maskedOutputs cfg m (stepW A cfg w op) h
 
 /-! ## the isolated single-model machine (specification side of `stream_deterministic`) -/
 
@@ -270,7 +271,7 @@ def isoOutputs : Option G → List (MOp G Draw) → List (Option (Result Out))
 
 /-- the part of one op that concerns model `m` (dynamic: a `RandomState` seed is read when it is
     installed; a caller draw concerns `m` iff `m` holds that very object). -/
-def ownOp (w : World G) (m : MId) : Op Draw → List (MOp G Draw)
+def ownOp (w : World G) (m : Nat) : Op Draw → List (MOp G Draw)
   | .sample m' c => if m' = m then [.sample c] else []
   | .setState m' .none => if m' = m then [.set none] else []
   | .setState m' (.int n) => if m' = m then [.set (some (A.fromSeed n))] else []
@@ -278,27 +279,27 @@ def ownOp (w : World G) (m : MId) : Op Draw → List (MOp G Draw)
   | .callerDraw r d => if r < w.next ∧ w.rs m = some r then [.ext d] else []
   | _ => []
 
-def ownOps (cfg : Config) (m : MId) : World G → List (Op Draw) → List (MOp G Draw)
+def ownOps (cfg : Config) (m : Nat) : World G → List (Op Draw) → List (MOp G Draw)
   | _, [] => []
   | w, op :: h => ownOp A w m op ++ ownOps cfg m (stepW A cfg w op) h
 
 /-- static projection: valid when the history has no caller draws and `m` is never given a
     `RandomState` object (`plainFor`). -/
-def projOp (m : MId) : Op Draw → List (MOp G Draw)
+def projOp (m : Nat) : Op Draw → List (MOp G Draw)
   | .sample m' c => if m' = m then [.sample c] else []
   | .setState m' .none => if m' = m then [.set none] else []
   | .setState m' (.int n) => if m' = m then [.set (some (A.fromSeed n))] else []
   | _ => []
 
-def proj (m : MId) (h : List (Op Draw)) : List (MOp G Draw) := h.flatMap (projOp A m)
+def proj (m : Nat) (h : List (Op Draw)) : List (MOp G Draw) := h.flatMap (projOp A m)
 
 /-- no caller draws; `m` seeded only by `int`/`None`. -/
-def plainOp (m : MId) : Op Draw → Bool
+def plainOp (m : Nat) : Op Draw → Bool
   | .callerDraw _ _ => false
   | .setState m' (.obj _) => !(m' == m)
   | _ => true
 
-def plainFor (m : MId) (h : List (Op Draw)) : Bool := h.all (plainOp m)
+def plainFor (m : Nat) (h : List (Op Draw)) : Bool := h.all (plainOp m)
 
 /-! ## events on the global stream (specification side of `global_preserved`) -/
 
@@ -312,7 +313,7 @@ def applyG (g : G) : List (GEvent Draw) → G
   | .seed n :: es => applyG (A.fromSeed n) es
 
 /-- does `m.sample` currently run on its own stream? -/
-def seeded (cfg : Config) (w : World G) (m : MId) : Bool := cfg.decorated m && (w.rs m).isSome
+def seeded (cfg : Config) (w : World G) (m : Nat) : Bool := cfg.decorated m && (w.rs m).isSome
 
 /-- the events an op applies to the global stream: only unseeded sampling and `np.random.seed`. -/
 def globalOp (cfg : Config) (w : World G) : Op Draw → List (GEvent Draw)
@@ -370,7 +371,7 @@ def tableDecorated (table : List TableEntry) (cls : String) : Bool :=
 def kindOfClass (cls : String) : Kind := if cls == "Univariate" then .delegating else .direct
 
 /-- configuration of a population of models given the class of each and the table. -/
-def configOf (table : List TableEntry) (clsOf : MId → String) : Config :=
+def configOf (table : List TableEntry) (clsOf : Nat → String) : Config :=
   ⟨fun m => kindOfClass (clsOf m), fun m => tableDecorated table (clsOf m)⟩
 
 /-! ## dataset generators: the draw requests of each body, as data
@@ -403,14 +404,34 @@ def bimodalDraws (size : Nat) : List DrawReq × List DrawReq :=
 /-! ## the free generator algebra (driver)
 
 States are terms `root · d₁ · d₂ · …` (`root = 0`: the unknown prior global state, `n + 1`:
-`fromSeed n`); two digests the model predicts equal are equal in **every** generator algebra
-(`Props.C15.free_run_sound`). -/
+`fromSeed n`); an output is the pair (state at which the request was made, request).  The run of a
+history in the free algebra maps homomorphically onto its run in **every** generator algebra
+(`Props.C15.free_run_sound`): digests the model predicts equal must be equal. -/
 
-abbrev Term := List Nat
+structure Term (Draw : Type) where
+  root : Nat
+  draws : List Draw
+  deriving DecidableEq, Repr
 
-def freeAlg : GenAlg Term Nat (Term × Nat) where
-  advance g d := g ++ [d]
+def freeAlg (Draw : Type) : GenAlg (Term Draw) Draw (Term Draw × Draw) where
+  advance g d := ⟨g.root, g.draws ++ [d]⟩
   out g d := (g, d)
-  fromSeed n := [n + 1]
+  fromSeed n := ⟨n + 1, []⟩
+
+/-- the meaning of a term in an algebra `A`, `g0` being the prior global state. -/
+def interp {G Draw Out : Type} (A : GenAlg G Draw Out) (g0 : G) (t : Term Draw) : G :=
+  advDraws A (match t.root with | 0 => g0 | n + 1 => A.fromSeed n) t.draws
+
+/-- the world every history of the harness starts from: unknown global state, no `RandomState`
+    objects yet, every model unseeded (construction with a seed is a `setState` op). -/
+def World.init {G : Type} (g0 : G) : World G := ⟨g0, fun _ => g0, 0, fun _ => none⟩
+
+/-- transport of worlds and results along a map of generator states / outputs. -/
+def World.map {G G' : Type} (φ : G → G') (w : World G) : World G' :=
+  ⟨φ w.global, fun r => φ (w.heap r), w.next, w.rs⟩
+
+def Result.map {Out Out' : Type} (ψ : Out → Out') : Result Out → Result Out'
+  | .ok outs => .ok (outs.map ψ)
+  | .raised => .raised
 
 end CopVerif.Model.Rng
